@@ -3,6 +3,7 @@
 package geom
 
 func init() {
+	vfHarnesses["C16_xy_only"] = vfhC16XYOnly
 	vfHarnesses["C16_constructors"] = vfhC16Constructors
 	vfHarnesses["C16_force"] = vfhC16Force
 	vfHarnesses["C16_carry"] = vfhC16Carry
@@ -222,5 +223,41 @@ func vfhC16CarryMulti() {
 		check(mp.ForceCoordinatesType(ct).AsGeometry(), "forcing the same type changes nothing")
 		vfAssert(vfGeomBits(mp.ForceCoordinatesType(ct).AsGeometry(), mp.AsGeometry()), "forcing the same type changes nothing")
 	}
+	vfReach("end")
+}
+
+// The operations defined on XY only return XY geometries whatever the coordinate
+// type of the operand: every geometry of the shape tables (plus lineal cases
+// whose PointOnSurface is a start or an end vertex) forced to a symbolic
+// coordinate type.
+func vfhC16XYOnly() {
+	all := append(append(append([][2]string{}, vfC01Shapes...), vfC02Shapes...), vfC09Extra...)
+	all = append(all,
+		[2]string{"MULTILINESTRING((0 0,4 0),(10 0,5 0))", "MULTILINESTRING((5 0,10 0),(0 0,4 0))"},
+		[2]string{"LINESTRING(0 0,4 0)", "GEOMETRYCOLLECTION(MULTILINESTRING((0 0,4 0),(10 0,5 0)),POINT(1 1))"},
+	)
+	k := vfInt("case", 0, len(all)-1)
+	side := 0
+	if vfBool("second") {
+		side = 1
+	}
+	g2, err := UnmarshalWKT(all[k][side])
+	vfAssert(err == nil, "operand parses")
+	ct := vfCT("ct")
+	g := g2.ForceCoordinatesType(ct)
+	vfAssert(g.CoordinatesType() == ct, "forced to the coordinate type")
+	vfAssert(g.Centroid().CoordinatesType() == DimXY, "Centroid is XY")
+	vfAssert(g.ConvexHull().CoordinatesType() == DimXY, "ConvexHull is XY")
+	vfAssert(g.PointOnSurface().CoordinatesType() == DimXY, "PointOnSurface is XY")
+	vfAssert(g.Envelope().AsGeometry().CoordinatesType() == DimXY, "Envelope is XY")
+	vfAssert(g.Envelope().BoundingDiagonal().CoordinatesType() == DimXY, "BoundingDiagonal is XY")
+	other, err := UnmarshalWKT(all[k][1-side])
+	vfAssert(err == nil, "other operand parses")
+	u, err := Union(g, other.ForceCoordinatesType(ct))
+	vfAssert(err == nil && u.CoordinatesType() == DimXY, "Union is XY")
+	x, err := Intersection(g, other)
+	vfAssert(err == nil && x.CoordinatesType() == DimXY, "Intersection is XY")
+	uu, err := UnaryUnion(g)
+	vfAssert(err == nil && uu.CoordinatesType() == DimXY, "UnaryUnion is XY")
 	vfReach("end")
 }
